@@ -11,6 +11,29 @@ use std::collections::BTreeSet;
 pub fn run(r: &mut Report) {
     crate::c01::agreement_matrix(r, crate::util::scale(12, 40), "order-independence");
     crate::c03::multi_alg(r, crate::util::scale(24, 100), "order-independence-multi-algorithm");
+    crate::c01::digest_shape_dissent(r, crate::util::scale(8, 40), "order-independence-digest-shapes");
+    // a link file carrying a second signature entry whose (made-up) key id shares the file's 8-character prefix: which entry decides
+    // is a matter of file order, never of hash order
+    for junk_first in [false, true] {
+        let owner = key(1); let ka = key(2);
+        let d = tmpdir();
+        let genuine = signed_link(&link("a", &[], &[("p", 1)]), &[&ka]);
+        let mut v = serde_json::to_value(&genuine).unwrap();
+        let junk_id = format!("{}{}", ka.key_id().prefix(), "0".repeat(56));
+        let junk = json!({"keyid": junk_id, "sig": v["signatures"][0]["sig"]});
+        if junk_first { v["signatures"].as_array_mut().unwrap().insert(0, junk); } else { v["signatures"].as_array_mut().unwrap().push(junk); }
+        std::fs::write(d.path().join(format!("a.{}.link", ka.key_id().prefix())), v.to_string()).unwrap();
+        let lay = signed_layout(&layout(vec![step("a", 1, &[&ka], allow_all(), allow_all())], vec![], &[&ka], 30), &[&owner]);
+        let mut seen = BTreeSet::new();
+        let reps = crate::util::scale(40, 200);
+        for _ in 0..reps {
+            let res = no_panic(|| in_toto_verify(&lay, owner_keys(&[&owner]), d.path().to_str().unwrap(), None));
+            seen.insert(match &res { Ok(v) => if v.is_ok() { "Ok".to_string() } else { "Err".to_string() }, Err(p) => format!("panic: {}", p) });
+        }
+        // the first entry with the file's prefix decides (C02): junk first -> filed under an unauthorised id -> Err; genuine first -> Ok
+        let want = if junk_first { "Err" } else { "Ok" };
+        r.case("two-signature-entries-sharing-the-prefix", json!({"junk_entry_first": junk_first, "repetitions": reps}), &format!("{} on every run", want), format!("{:?}", seen), seen.len() == 1 && seen.contains(want));
+    }
     let owner = key(1);
     let ks = [key(2), key(3), key(4), key(5)];
     // threshold 1, four valid authorised links that differ in their products
